@@ -204,7 +204,31 @@ pub fn gen_cfg(g: &mut SplitMix64, allow_short: bool) -> Cfg {
             slots.push(Some(FastOp::offdiagonal(vars, b, sub, outs, bonds[b].constant)));
         }
     }
+    // container LONGER than the sweep: pre-grown with empty slots (`set_cutoff(big)` after the install), or recycled
+    // from a longer run (operators in the tail; they count in n but are never visited)
+    if allow_short && lc == cutoff && g.chance(1, 5) {
+        let extra = g.range(1, 24) as usize;
+        let with_ops = g.chance(1, 3);
+        for _ in 0..extra {
+            if with_ops && g.chance(1, 4) {
+                let b = g.below(bonds.len() as u64) as usize;
+                let vars = bonds[b].vars.clone();
+                let sub = substate(&rolling, &vars);
+                if diag_weight(&bonds[b], &sub) > 0.0 {
+                    slots.push(Some(FastOp::diagonal(vars, b, sub, bonds[b].constant)));
+                    continue;
+                }
+            }
+            slots.push(None);
+        }
+        stat(if with_ops { "cfg_container_longer_with_tail_ops" } else { "cfg_container_pregrown" }, 1);
+    }
     Cfg { bonds, nvars, state, slots, cutoff, beta: *g.pick(&BETAS) }
+}
+
+/// number of operators in the part of the container beyond the sweep
+pub fn tail_ops(cfg: &Cfg) -> usize {
+    cfg.slots.iter().skip(cfg.cutoff).filter(|o| o.is_some()).count()
 }
 
 pub fn build_manager(cfg: &Cfg) -> FastOps {
@@ -360,6 +384,13 @@ pub fn sweep_oracle(cfg: &Cfg, out: &RunOut) -> Result<(), String> {
     for p in 0..before.len() {
         let b = &before[p];
         let a = &out.slots[p];
+        if p >= cfg.cutoff {
+            // beyond the sweep: untouched, and the state is not propagated through
+            if a != b {
+                return Err(format!("slot p={} beyond the sweep cutoff {} was changed", p, cfg.cutoff));
+            }
+            continue;
+        }
         if is_offdiag(b) {
             if a != b {
                 return Err(format!("off-diagonal operator at p={} was altered", p));
